@@ -1,6 +1,7 @@
 package checks
 
 import (
+	"compress/gzip"
 	"bufio"
 	"bytes"
 	"encoding/binary"
@@ -28,7 +29,7 @@ import (
 // command-embedding file x header count / dimension / word-length overrides,
 // loaded in an address-space-capped child process (a case that kills the
 // child is attributed exactly, the child is restarted after it);
-// (cosine) all ordered pairs of vectors of 0..3 components over a 7-value
+// the same files gzip-compressed with a true, zero and 2^32-1 length trailer; (twins) histories search, grow, search, search, grow, search on two literal databases of which one has an index attached: same entries, scores within the blend bound, after every step; (cosine) all ordered pairs of vectors of 0..3 components over a 7-value
 // alphabet; (search) databases x queries x attached in-memory indexes.
 
 // ---------------------------------------------------------------- loader cases
@@ -39,6 +40,9 @@ type c19File struct {
 	Count  int64  `json:"count,omitempty"`    // -1 keep; else header count override
 	Dim    int64  `json:"dim,omitempty"`      // -1 keep (embeds)
 	WLen   int    `json:"word_len,omitempty"` // -1 keep; else first word-length field override (words)
+	// Wrap: the file is stored gzip-compressed (a loader that learns to read compressed files must not trust
+	// the container's own length field either): gzip | gzip-isize-max | gzip-isize-0
+	Wrap string `json:"wrap,omitempty"`
 }
 
 func c19BaseWords() []byte {
@@ -88,6 +92,16 @@ func c19LoaderCases() []c19File {
 			out = append(out, c19File{Kind: "embeds", Prefix: l, Count: c, Dim: -1, WLen: -1})
 		}
 	}
+	for _, wrap := range []string{"gzip", "gzip-isize-max", "gzip-isize-0"} {
+		for _, c := range c19Counts {
+			for _, l := range []int{8, 30, len(w)} {
+				out = append(out, c19File{Kind: "words", Prefix: l, Count: c, Dim: -1, WLen: -1, Wrap: wrap})
+			}
+			for _, l := range []int{8, 30, len(e)} {
+				out = append(out, c19File{Kind: "embeds", Prefix: l, Count: c, Dim: -1, WLen: -1, Wrap: wrap})
+			}
+		}
+	}
 	for _, l := range []int{8, 12, 400, 408, len(e)} {
 		for _, c := range c19Counts {
 			for _, d := range []int64{0, 1, 99, 101, 1<<32 - 1} {
@@ -116,6 +130,19 @@ func (f c19File) bytes() []byte {
 	}
 	if f.Prefix < len(b) {
 		b = b[:f.Prefix]
+	}
+	if f.Wrap != "" {
+		var z bytes.Buffer
+		zw := gzip.NewWriter(&z)
+		zw.Write(b)
+		zw.Close()
+		b = z.Bytes()
+		switch f.Wrap {
+		case "gzip-isize-max":
+			binary.LittleEndian.PutUint32(b[len(b)-4:], 1<<32-1)
+		case "gzip-isize-0":
+			binary.LittleEndian.PutUint32(b[len(b)-4:], 0)
+		}
 	}
 	return b
 }
@@ -442,6 +469,87 @@ func c19SearchEval(c *lib.Ctx, db *database.Database, cs c19Search) (*lib.Violat
 	return nil, obs
 }
 
+// c19Twins: two databases built from the same literal command list (no loader, hence no re-ranker),
+// one with an embedding index attached. Through a history of searches and growth of the command list
+// (the lazy index refresh) the twin with the index may only differ by the bounded semantic boost.
+func c19Twins(c *lib.Ctx) {
+	if !accSetEmbedding(&database.Database{}, nil) {
+		return
+	}
+	extra := []Cmd{{Command: "zzz grow one", Description: "compress files list", Keywords: []string{"git"}}, {Command: "zzz grow two", Description: "tar files", Keywords: []string{"list"}}}
+	specs := []dbSpec{{Pool: []int{0, 4, 5}}, {Pool: []int{4, 5, 6, 8, 22}}, {Special: "forty"}}
+	qs := []string{"compress files", "git list", "tar files", "list files git"}
+	for si, spec := range specs {
+		if !c.Mine(int64(si)) {
+			continue
+		}
+		for _, q1 := range qs {
+			for _, q2 := range qs {
+				for _, firstNLP := range []bool{false, true} {
+					mk := func() *database.Database {
+						d := &database.Database{Commands: append([]Cmd{}, spec.cmds()...)}
+						d.BuildUniversalIndex()
+						return d
+					}
+					a, b := mk(), mk()
+					hist := ""
+					compare := func(q string, nlp bool) *lib.Violation {
+						accSetEmbedding(b, c19Index("full", len(b.Commands)))
+						o := Opts{Limit: len(a.Commands) + 3, UseNLP: nlp, AllPlatforms: true}
+						var ra, rb []resItem
+						var pv any
+						func() {
+							defer func() { pv = recover() }()
+							ra, rb = uItems(a, a.SearchUniversal(q, o)), uItems(b, b.SearchUniversal(q, o))
+						}()
+						hist += fmt.Sprintf("search(%q,nlp=%v);", q, nlp)
+						c.Rep.Evaluations += 2
+						c.Count("twin_history_searches", 1)
+						cs := c19Search{DB: spec, Query: strconv.Quote(q), NLP: nlp, Index: "twin-history: " + hist}
+						if pv != nil {
+							return &lib.Violation{Key: "twin-panic", What: fmt.Sprintf("after %s: panic %v", hist, pv), Case: cs}
+						}
+						if fmt.Sprint(uSortedIdx(ra)) != fmt.Sprint(uSortedIdx(rb)) {
+							return &lib.Violation{Key: "twin-candidates", What: "after " + hist + " the database with an embedding index returns a different set of entries than its twin without one", Case: cs, Observed: rb, Expected: ra}
+						}
+						sa := map[int]float64{}
+						for _, it := range ra {
+							sa[it.Idx] = it.Score
+						}
+						for _, it := range rb {
+							w := sa[it.Idx]
+							if it.Score < w || it.Score > w*(1+constants.SemanticAlpha)*(1+1e-12) {
+								return &lib.Violation{Key: "twin-score-bound", What: fmt.Sprintf("after %s entry %d scores %v with the index and %v in the twin without; must lie in [without, (1+%v)*without]", hist, it.Idx, it.Score, w, constants.SemanticAlpha), Case: cs, Observed: rb, Expected: ra}
+							}
+						}
+						return nil
+					}
+					grow := func(k int) {
+						a.Commands = append(a.Commands, extra[k])
+						b.Commands = append(b.Commands, extra[k])
+						hist += "grow;"
+					}
+					var v *lib.Violation
+					for _, step := range []func() *lib.Violation{
+						func() *lib.Violation { return compare(q1, firstNLP) },
+						func() *lib.Violation { grow(0); return compare(q2, true) },
+						func() *lib.Violation { return compare(q2, false) },
+						func() *lib.Violation { grow(1); return compare(q1, true) },
+					} {
+						if v = step(); v != nil {
+							break
+						}
+					}
+					accSetEmbedding(b, nil)
+					if v != nil {
+						c.Violate(*v)
+					}
+				}
+			}
+		}
+	}
+}
+
 func c19Searches(c *lib.Ctx) {
 	if !accSetEmbedding(&database.Database{}, nil) {
 		c.Note("embedding-index setter unavailable (" + accMode + "): search part skipped")
@@ -513,13 +621,14 @@ func c19Run(c *lib.Ctx) {
 	}
 	c19Cosine(c)
 	c19Searches(c)
+	c19Twins(c)
 }
 
 func init() {
 	lib.Subs["c19load"] = c19Child
 	lib.Register(&lib.Check{
 		ID: "C19", Level: "model_checking",
-		Rule:      "(loaders) every byte prefix (0..818 / 0..808 bytes) of a valid 2-word vector file and of a valid 2-command embedding file x header count {kept,0,1,2,3,65536,2^31,2^32-1}, + first word-length field {0,1,65535} at every prefix, + dimension {0,1,99,101,2^32-1} x counts at 5 prefixes: each loaded in a child process under a 1.5 GiB address-space cap; a case that kills the child is attributed exactly and the child restarted after it; oracle: (vectors, nil) or (nil, error), no panic, allocation <= 64 MB + 16 x file size. (cosine) all ordered pairs of the 400 vectors with 0..3 components (thorough: the 2,801 vectors with 0..4 components) over {0,1,-1,0.5,1e-30,3e38,-3e38}: exact symmetry, |cos|<=1, 0 for empty / zero / mismatched. (search) 40-entry + all subsets of <=3 of 8 pool entries x 63 queries (5 of them joining vocabulary words with '-', '.', '/', '_') x NLP on/off x 7 in-memory indexes (full, rotated, one short, wrong length, no command vectors, word vectors whose average overflows float32, command rows holding NaN / Inf as a damaged file can) attached through the overlay setter: same result set, score in [without, (1+alpha) x without], list ordered; LoadEmbeddings without files is a no-op. non-trivial = rejected files + non-zero cosines + searches whose scores the semantic stage changed",
+		Rule:      "(loaders) every byte prefix (0..818 / 0..808 bytes) of a valid 2-word vector file and of a valid 2-command embedding file x header count {kept,0,1,2,3,65536,2^31,2^32-1}, + first word-length field {0,1,65535} at every prefix, + dimension {0,1,99,101,2^32-1} x counts at 5 prefixes, + both files gzip-compressed (3 prefixes x every count) with a true, a zero and a 2^32-1 length trailer (a container's own length field is as untrusted as the header): each loaded in a child process under a 1.5 GiB address-space cap; a case that kills the child is attributed exactly and the child restarted after it; oracle: (vectors, nil) or (nil, error), no panic, allocation <= 64 MB + 16 x file size. (cosine) all ordered pairs of the 400 vectors with 0..3 components (thorough: the 2,801 vectors with 0..4 components) over {0,1,-1,0.5,1e-30,3e38,-3e38}: exact symmetry, |cos|<=1, 0 for empty / zero / mismatched. (search) 40-entry + all subsets of <=3 of 8 pool entries x 63 queries (5 of them joining vocabulary words with '-', '.', '/', '_') x NLP on/off x 7 in-memory indexes (full, rotated, one short, wrong length, no command vectors, word vectors whose average overflows float32, command rows holding NaN / Inf as a damaged file can) attached through the overlay setter: same result set, score in [without, (1+alpha) x without], list ordered; LoadEmbeddings without files is a no-op. non-trivial = rejected files + non-zero cosines + searches whose scores the semantic stage changed",
 		Assume:    []string{"the embedding index setter is an overlay accessor (" + accMode + ")", "in-memory vectors have Dimension components (the loaders guarantee it for files)", "CosineSimilarity itself is checked on finite vectors only; the search stage is checked with NaN / Inf rows and overflowing sums as well"},
 		QuickSecs: 200, ThorSecs: 900,
 		Run: c19Run,
@@ -539,6 +648,21 @@ func init() {
 				return nil
 			}
 			var s c19Search
+			if json.Unmarshal(raw, &s) == nil && strings.HasPrefix(s.Index, "twin-history: ") {
+				vhost.Set("linux")
+				defer vhost.Set("")
+				cc := *c
+				cc.Rep = &lib.Report{Counters: map[string]int64{}}
+				cc.NShards, cc.Shard = 1, 0
+				c19Twins(&cc)
+				var out []lib.Violation
+				for _, v := range cc.Rep.Violations {
+					if vs, ok := v.Case.(c19Search); ok && vs.Index == s.Index && vs.DB.String() == s.DB.String() {
+						out = append(out, v)
+					}
+				}
+				return out
+			}
 			if json.Unmarshal(raw, &s) == nil && s.Query != "" {
 				vhost.Set("linux")
 				defer vhost.Set("")
